@@ -469,7 +469,9 @@ def run(ctx: core.Ctx) -> None:
     def variant(s):
         return ('none', 0) if s[0] == 'sample' else (s[2], s[3])
     if ctx.quick:
-        table = {('none', 0): 3, ('none', 1): 2, ('one', 0): 2, ('one', 1): 1, ('all', 1): 1, ('all', 0): 0}
+        table = {('none', 0): 3, ('none', 1): 1, ('one', 0): 1, ('one', 1): 1, ('all', 1): 1, ('all', 0): 0}
+        # the LZMA code path does not depend on the lump layout except for the L4D2 header order
+        inputs = [s for s in inputs if variant(s)[0] != 'all' or s[1] in ('v20', 'l4d2')]
         deadline = ctx.t0 + 170
     else:
         table = {('none', 0): None, ('none', 1): 3, ('one', 0): 3, ('one', 1): 3, ('all', 1): 2, ('all', 0): 1}
@@ -485,18 +487,21 @@ def run(ctx: core.Ctx) -> None:
     ctx.rule = (
         'inputs: tests/test_vec/rot_main.bsp with the entity lump cut to 40 entities + independently encoded, fully '
         'populated BSPs for 7 layouts (v19, v20, v21, L4D2 header order, INFRA v22, Chaos v25, VitaminSource v43) x '
-        '{no, one (LEAFS), all} lumps LZMA-compressed x {raw, LZMA} game lumps = 43 files. States: BFS over histories of '
+        '{no, one (LEAFS), all} lumps LZMA-compressed x {raw, LZMA} game lumps. States: BFS over histories of '
         'reads of the 21 ParsedLump views, deduplicated by (parsed key set, digest of raw payloads, digest of parsed '
-        'content); ' + ('quick: histories of <= 3 reads for the sample and the 7 uncompressed files, <= 2 reads with LZMA game '
-                        'lumps or one LZMA lump, <= 1 read with one LZMA lump + LZMA game lumps and with all lumps + game lumps LZMA, '
-                        'the empty history with all lumps LZMA + raw game lumps (a save of a fully compressed file costs ~45 '
-                        'LZMA encoder set-ups of 17 ms). '
+        'content); ' + ('quick: histories of <= 3 reads for the sample and the 7 uncompressed files; <= 1 read for the 21 '
+                        'files with LZMA game lumps and/or one LZMA lump; fully compressed files for the layouts v20 and l4d2 '
+                        'only (the LZMA path is layout independent but for the L4D2 header order): <= 1 read with LZMA game '
+                        'lumps, the empty history with raw game lumps (one save of a fully compressed file costs ~45 LZMA '
+                        'encoder set-ups of 17 ms). '
                         if ctx.quick else
                         'thorough: the full reachable graph for the sample and the 7 uncompressed files, histories of <= 3 reads '
-                        'for the partly compressed files, <= 2 / <= 1 reads for the fully compressed ones. ') +
+                        'for the 21 partly compressed files, <= 2 reads (LZMA game lumps) / <= 1 read (raw game lumps) for the 14 '
+                        'fully compressed ones. ') +
         'In every state: save -> own container parse + re-read -> header/lump versions/flags equal, view-less lumps '
         'byte-identical, views observer-equal (index form), second save of the re-read file byte-identical, second save of '
-        'the same object byte-identical, re-reading parsed views is a self loop. Non-trivial = history non-empty.')
+        'the same object byte-identical (these two clauses only in the initial state on fully compressed files), re-reading '
+        'parsed views is a self loop. Non-trivial = history non-empty.')
     ctx.assumptions += [
         'synthesised files: lump payloads are packed by checks/bspgen.py with struct; only the per-version struct tables '
         'LUMP_LAYOUT_* of srctools.bsp are reused as trusted data. The library readers are cross-checked against the encoded '
